@@ -640,4 +640,42 @@ def build : Expr K D → Except String (Op K D)
 
 end buildExpr
 
+
+/-! ### which scripts the theorem `tree_sound` (Props/C01.lean) covers — computable, reported by the driver -/
+
+def isSumOp : Op K D → Bool | .sum _ _ => true | _ => false
+def isSandwichOp : Op K D → Bool | .sandwich _ _ _ => true | _ => false
+
+/-- the script is a sum, possibly under `.adjoint` -/
+def sumRooted : Expr K D → Bool
+  | .add _ _ => true
+  | .sub _ _ => true
+  | .adjoint a => sumRooted a
+  | _ => false
+
+section covered
+variable (S : Sem K D R)
+
+/-- scripts covered by `tree_sound`: no block-diagonal operators, no InversionEnabler; `.adjoint` (and a sandwich bun) of an
+    operator that *is* a SumOperator must syntactically be a sum; the cheese of a sandwich is not itself a SandwichOperator -/
+def treeOK : Expr K D → Bool
+  | .leaf _ _ _ _ => true
+  | .scaling _ _ _ => true
+  | .diag _ _ _ => true
+  | .null _ _ => true
+  | .add a b => treeOK a && treeOK b
+  | .sub a b => treeOK a && treeOK b
+  | .matmul a b => treeOK a && treeOK b
+  | .adjoint a => treeOK a && (match build S a with | .ok x => !isSumOp x || sumRooted a | .error _ => true)
+  | .inverse a => treeOK a
+  | .neg a => treeOK a
+  | .scale a _ => treeOK a
+  | .sandwich bun ch _ => treeOK bun && treeOK ch &&
+      (match build S bun with | .ok x => !isSumOp x || sumRooted bun | .error _ => true) &&
+      (match build S ch with | .ok c => !isSandwichOp c | .error _ => true)
+  | .sandwichNone bun _ => treeOK bun && (match build S bun with | .ok x => !isSumOp x || sumRooted bun | .error _ => true)
+  | _ => false
+
+end covered
+
 end NiftyVerif.OpAlgebra
